@@ -70,6 +70,18 @@ CLAIMED = {
          "resulting contents are compared with the model for modelled calls."),
    note=BASE_NOTE + "Calls outside DtypeCases.dstep are checked only through the observation predicate (the property itself), "
         "not through a model; HistogramCollection constructor/add refusals are exercised in C12's cases."),
+ "C19": dict(
+   technique="Coq proofs over a per-context binding + token-stack model (restoration for every balanced body and on raise, isolation by induction over schedules, spawn snapshot) + extracted-model correspondence under forced interleavings of real threads / asyncio tasks",
+   text=("Theorems: enter/exit restores the previous value and nesting for EVERY balanced body (nested blocks, assignments inside, "
+         "spawns); an exception at any depth restores the value before the outermost block; the state of a context after a schedule "
+         "is independent of all actions of other contexts (any interleaving); a task starts from its creator's value, a thread "
+         "from the environment default; a passing check means every read saw (v, v) with v the model value. Generated schedules "
+         "are forced, action by action, onto real asyncio tasks and threads in processes started with each value of "
+         "PHYST_FREE_ARITHMETICS; config.free_arithmetics and the acceptance of ten guarded operations are compared at every read."),
+   note=BASE_NOTE + "Modelled, not verified: CPython contextvars/asyncio/threading (copy at task creation, empty context in a new "
+        "thread); preemption inside one physt call is not forced (each action is atomic in the schedule) — the ContextVar is the "
+        "only state involved, so a data race inside a call cannot change another context's binding. Generators/executors that "
+        "move a with-block across contexts are out of scope."),
  "C05": dict(
    technique="Coq proofs (pointwise sum, commutativity/associativity, promotion lattice, conservation on the union grid) + extracted-model correspondence",
    text=("Theorems: same-bins addition is the pointwise sum of contents/errors2/missed with dtype = promote_types (a semilattice "
